@@ -419,12 +419,18 @@ func (x *c15ctx) runCase(c *c15Case) *c15Obs {
 	case "present", "immutable":
 		err = write(o.OutAbs, c15Sentinel(c, "out"))
 	case "dir":
-		if err = os.MkdirAll(o.OutAbs, 0o755); err == nil {
+		if err = os.MkdirAll(o.OutAbs, 0o755); err == nil && c.Mech != "empty" {
 			err = write(filepath.Join(o.OutAbs, "keep.txt"), "c15 keep "+c.ID+"\n")
 		}
 	case "unwritable":
-		if c.Mech == "uid+present" {
+		if c.Mech == "uid+present" || c.Mech == "uid-rofile" {
 			err = write(o.OutAbs, c15Sentinel(c, "out"))
+		}
+		if err == nil && c.Mech == "uid-rofile" {
+			// the FILE is read-only, its directory is writable for the (unprivileged) user the tool runs as
+			if err = os.Chmod(o.OutAbs, 0o444); err == nil {
+				err = os.Chmod(filepath.Dir(o.OutAbs), 0o777)
+			}
 		}
 	case "alias":
 		if _, serr := os.Lstat(inputAbs); serr != nil {
@@ -997,7 +1003,10 @@ func RunC15(e *core.Env) int {
 					}
 					c.Spelling = []string{"rel", "rel", "abs", "root", "sub", "symlink"}[rnd.Intn(6)]
 					if st == "unwritable" {
-						c.Mech = []string{"uid", "uid+present", "chattr-dir"}[(bits+r+rnd.Intn(3))%3]
+						c.Mech = []string{"uid", "uid+present", "chattr-dir", "uid-rofile"}[(bits+r+rnd.Intn(4))%4]
+					}
+					if st == "dir" && (bits+r+ki)%2 == 1 {
+						c.Mech = "empty" // an EMPTY directory in the way (removable by a careless clean-up)
 					}
 					if st == "alias" {
 						c.Mech = []string{"same", "symlink", "hardlink"}[(bits/2+r+ki)%3]
